@@ -171,9 +171,12 @@ def run(case):
             mag = sum(abs(int(x)) for x in dv.tolist()) / len(dv)
             ok = abs(float(g) - ex) <= 1e-9 * max(1.0, mag)
         elif "mean" in name:
-            ok = np.allclose(g.astype(np.float64), e.astype(np.float64), rtol=1e-6 if dt.itemsize <= 4 and dt.kind == "f" else 1e-12, atol=0, equal_nan=True)
+            wide_ = np.complex128 if "c" in (g.dtype.kind, e.dtype.kind) else np.float64
+            single_ = (dt.kind == "f" and dt.itemsize <= 4) or (dt.kind == "c" and dt.itemsize <= 8)
+            ok = np.allclose(g.astype(wide_), e.astype(wide_), rtol=1e-6 if single_ else 1e-12, atol=0, equal_nan=True)
         else:
-            ok = same_array(g.astype(np.float64) if g.dtype.kind != "b" else g, e.astype(np.float64) if e.dtype.kind != "b" else e, dtype=False)
+            wide_ = np.complex128 if "c" in (g.dtype.kind, e.dtype.kind) else np.float64
+            ok = same_array(g.astype(wide_) if g.dtype.kind != "b" else g, e.astype(wide_) if e.dtype.kind != "b" else e, dtype=False)
         if not ok:
             return violated("%s gives %s, numpy on the decoded array gives %s" % (desc, short(a.value), short(o.value)), tags, got=g, expected=e)
         CTX.tick("c16:operands-unchanged")
@@ -305,7 +308,7 @@ def boundaries(rng, L, align):
 
 
 def gen_case(rng, tier, kind=None, dtype=None, align=None, uf=None):
-    dtype = dtype or rng.choice(gen.DT_ALL)
+    dtype = dtype or (rng.choice(gen.DT_ALL) if rng.random() < 0.92 else rng.choice(gen.DT_EXOTIC))
     k = np.dtype(dtype).kind
     kind = kind or rng.choice(KINDS)
     maxlen = 14 if tier == "quick" else 60
@@ -355,9 +358,9 @@ def gen_case(rng, tier, kind=None, dtype=None, align=None, uf=None):
             c["moredt"] = [rng.choice(rl.DT_RL) for _ in c["more"]]
             c["more"] = [rl.gen_runs(rng, d_, "small", 6)[0].tolist() for d_ in c["moredt"]]
     elif kind == "hist":
-        if k == "b":
-            c["dtype"] = "int64"
-            c["vals"] = [int(x) for x in c["vals"]]
+        if k in "bc":
+            c["dtype"] = "int64"          # (no histogram of complex numbers in numpy)
+            c["vals"] = [int(x.real) if isinstance(x, complex) else int(x) for x in c["vals"]]
         c["bins"] = rng.choice([3, 10, [0, 1, 2, 5], [-100, 0, 100]])
         u = rng.random()
         if u < 0.3:
